@@ -145,7 +145,22 @@ func (fr *frame) prepareCall(call *ssa.CallCommon) (fn Value, args []Value) {
 	return
 }
 
-func (w *Worker) callValue(caller *frame, fn Value, args []Value) Value {
+func (w *Worker) callValue(caller *frame, fn Value, args []Value) (result Value) {
+	if w.inInit > 0 && caller != nil && caller.fn.Name() == "init" && caller.fn.Synthetic != "" {
+		// a package initialiser keeps going when one of its initialising calls
+		// cannot be modelled: that global becomes poison, the others are still set
+		depth, cur := w.depth, w.cur
+		defer func() {
+			if r := recover(); r != nil {
+				if _, isTarget := r.(targetPanic); isTarget {
+					panic(r)
+				}
+				w.depth, w.cur = depth, cur
+				initWarnings.Store(caller.fn.Pkg.Pkg.Path()+" (partial)", fmt.Sprint(r))
+				result = Poison{"initialiser not modelled"}
+			}
+		}()
+	}
 	switch fn := fn.(type) {
 	case *ssa.Function:
 		return w.call(caller, fn, args, nil)
